@@ -223,7 +223,7 @@ impl Report {
                 coverage.insert(
                     "second_build_without_debug_assertions".into(),
                     json!({
-                        "what": "the same check, same tier, run first in a second harness binary in which the library under test is compiled with debug-assertions and overflow-checks off (profile 'plain'); a violation there fails the check as well",
+                        "what": "the same check (quick-tier bounds) run first in a second harness binary in which the library under test is compiled with debug-assertions and overflow-checks off (profile 'plain'); a violation there fails the check as well",
                         "evaluations": pv["coverage"]["evaluations"], "distinct_nontrivial": pv["coverage"]["distinct_nontrivial"],
                         "violations": pv["violations"], "violation_keys": pv["coverage"]["violation_keys"], "wall_s": pv["wall_s"],
                     }),
